@@ -477,15 +477,21 @@ theorem padField_nozero (f : Flags) (w : Nat) (body : Bytes) (b : Bool) (hz : f.
 theorem convert_c (p : PF) (full : Bytes) (s : Spec) (raw : Nat) (h : Agrees p full) (hc : s.conv = 'c')
     (hz : s.flags.zero = false) :
     ∃ p', convert p s (some (.int raw)) = some p' ∧ p'.cap = p.cap ∧
-      Agrees p' (full ++ padField { s.flags with zero := false } s.width [] [UInt8.ofNat (raw % 256)] false) := by
-  obtain ⟨p1, e1, c1, a1⟩ := PF.push_ok p full (UInt8.ofNat (raw % 256)) h
-  obtain ⟨p2, e2, c2, a2⟩ := finishConv p1 full [] _ s {} p.length (by simpa using a1) h.1 (by simp)
-  refine ⟨p2, ?_, by rw [c2, c1], ?_⟩
-  · unfold convert; simp only [hc]; simp [e1]; exact e2
-  · have : padField { s.flags with zero := false } s.width [] [UInt8.ofNat (raw % 256)] false =
-        padField s.flags s.width [] [UInt8.ofNat (raw % 256)] (!((isIntConv s.conv && s.prec.isSome) || ({} : Misc).nanOrInf)) := by
-      unfold padField; simp [hz]
-    rw [this]; exact a2
+      Agrees p' (full ++ padField { s.flags with zero := false } s.width [] (charBody s raw) false) := by
+  have hpad : ∀ body : Bytes, padField { s.flags with zero := false } s.width [] body false =
+      padField s.flags s.width [] body (!((isIntConv s.conv && s.prec.isSome) || ({} : Misc).nanOrInf)) := by
+    intro body; unfold padField; simp [hz]
+  by_cases hl : s.len = .l
+  · obtain ⟨p1, e1, c1, a1⟩ := PF.concat_ok p full (wcBytes raw) h
+    obtain ⟨p2, e2, c2, a2⟩ := finishConv p1 full [] _ s {} p.length (by simpa using a1) h.1 (by simp)
+    refine ⟨p2, ?_, by rw [c2, c1], ?_⟩
+    · unfold convert; simp only [hc]; simp [hl, e1]; exact e2
+    · rw [hpad]; simp only [charBody, hl, if_true]; exact a2
+  · obtain ⟨p1, e1, c1, a1⟩ := PF.push_ok p full (UInt8.ofNat (raw % 256)) h
+    obtain ⟨p2, e2, c2, a2⟩ := finishConv p1 full [] _ s {} p.length (by simpa using a1) h.1 (by simp)
+    refine ⟨p2, ?_, by rw [c2, c1], ?_⟩
+    · unfold convert; simp only [hc]; simp [hl, e1]; exact e2
+    · rw [hpad]; simp only [charBody, hl, if_false]; exact a2
 
 theorem convert_p (p : PF) (full : Bytes) (s : Spec) (raw : Nat) (h : Agrees p full) (hc : s.conv = 'p')
     (hz : s.flags.zero = false) (hp : s.prec = none) :
@@ -616,7 +622,7 @@ theorem convert_ok (p : PF) (full t : Bytes) (s : Spec) (a : Option Arg) (h : Ag
         split at ht
         · rename_i hz
           rcases hcp with hc | hc
-          · have : formatOne s (.int raw) = some (padField { s.flags with zero := false } s.width [] [UInt8.ofNat (raw % 256)] false) := by
+          · have : formatOne s (.int raw) = some (padField { s.flags with zero := false } s.width [] (charBody s raw) false) := by
               simp [formatOne, hc]
             rw [this] at ht; cases ht
             exact convert_c p full s raw h hc hz.1
